@@ -121,8 +121,10 @@ def s2(ctx, rep):
     if len(heads) != 1:
         raise AnchorError("CostPromotionRungSystem._find_promotable_trial: loop over rung.data not found")
     h = heads[0]
-    acc = [n.id for n in cfg.nodes if n.kind == "stmt" and isinstance(n.ast, ast.AugAssign) and isinstance(n.ast.op, ast.Add)
-           and "cost_val" in U(n.ast.value)]
+    acc = [n.id for n in cfg.nodes if n.kind == "stmt" and "cost_val" in U(n.ast.value if hasattr(n.ast, "value") and n.ast.value is not None else n.ast) and (
+        (isinstance(n.ast, ast.AugAssign) and isinstance(n.ast.op, ast.Add)) or
+        (isinstance(n.ast, ast.Assign) and isinstance(n.ast.value, ast.BinOp) and isinstance(n.ast.value.op, ast.Add)
+         and U(n.ast.targets[0]) in (U(n.ast.value.left), U(n.ast.value.right))))]
     ok = len(acc) == 1
     if ok:
         starts = [s for s, l in cfg.succ[h.id] if l == "iter"]
